@@ -58,11 +58,18 @@ def wf_document(case, rnd):
         cfg["svg_style"] = v
         body = '<rect wh="2"/>'
     elif src == "cfg-font":
-        cfg["font_family"] = v
-        body = '<rect wh="2" text="t"/>'
+        # the setting arrives through the configuration or through a <config> element
+        if rnd.random() < 0.5:
+            cfg["font_family"] = v
+            body = '<rect wh="2" text="t"/>'
+        else:
+            body = f'<config font-family="{a}"/><rect wh="2" text="t"/>'
     elif src == "cfg-background":
-        cfg["background"] = v
-        body = '<rect wh="2"/>'
+        if rnd.random() < 0.5:
+            cfg["background"] = v
+            body = '<rect wh="2"/>'
+        else:
+            body = f'<config background="{a}"/><rect wh="2"/>'
     elif src == "g-attr":
         body = f'<g data-x="{a}"><rect wh="2"/></g>'
     elif src == "reuse-attr":
@@ -119,6 +126,13 @@ def check_wellformed(out, expect_svg_root=True):
         if "version" not in a:
             return "root <svg> has no version"
     return None
+
+
+def style_text(out):
+    """character data of the generated <style> element(s) of an output document"""
+    root = vlib.parse_xml(out)
+    return "".join(c.text for el in vlib.elements(root) if el.name == "style"
+                   for c in el.children if c.kind in ("text", "cdata"))
 
 
 def infoset(node, strip_ws=False):
